@@ -2,8 +2,6 @@
 C02 - The verification level alone decides which failed validations reject.
 Property theorems only; model in `Model/C02.lean`, stage lemmas in `Lemmas/C02.lean`.
 -/
-import NotationModel.Lemmas.C02Process
-import NotationModel.Generated.SrcProcess
 import NotationModel.Lemmas.C02
 import NotationModel.Generated.SrcLevels
 import NotationModel.Generated.SrcVerifier
@@ -814,380 +812,3 @@ end Attrs
 end Tie
 
 end NotationModel.C02
-
-/-! ### tie to the translated source: `processSignature` as a whole
-
-`Generated/SrcProcess.lean` holds `processSignature` and `processPluginResponse` translated from
-verifier/verifier.go on every run (pointers into `outcome.VerificationResults` tracked by ghost
-positions, see go2lean.go `ptrSlice`). Everything they call that is not translated elsewhere is an
-oracle (`Src/TypesProcess.lean`); the theorems quantify over all oracles. -/
-open NotationModel.Src NotationModel.Src.verifier NotationModel.Src.«notation» NotationModel.Src.pluginframework
-open NotationModel.Src.signature
-open NotationModel.C02 NotationModel.C02.Process NotationModel.C02.Tie
-
-namespace GoLite
-theorem forIn_appendUnless {α : Type} (l : List α) (p : α → Bool) (acc : List α) :
-    (forIn l acc (fun a r => if p a = true then (pure (ForInStep.yield r) : Id _) else pure (ForInStep.yield (r ++ [a])))) =
-      pure (acc ++ l.filter (fun a => !p a)) := by
-  induction l generalizing acc with
-  | nil => simp
-  | cons a l ih =>
-    rw [List.forIn_cons]
-    by_cases hp : p a = true
-    · simp only [hp, if_true, pure_bind, ih]; simp [hp]
-    · simp only [hp, Bool.false_eq_true, if_false, pure_bind, ih]
-      simp [hp]
-end GoLite
-
-namespace NotationModel.C02.Tie
-section Process
-
-/-- the other arguments of `processSignature`, handed on to the oracles -/
-structure Args where
-  sigBlob : SigBlob
-  mt : String
-  pn : String
-  tis : List String
-  tss : List String
-  sv : trustpolicy.SignatureVerification
-  pc : GoLite.Map String String
-
-def keyOf (a : Attribute) : String := match a.Key with | .str k => k | .other _ => ""
-def strOf : AVal → Option String | .str s => some s | .other _ => none
-
-/-- the verification capabilities in the plugin's metadata, as `processSignature` filters them -/
-def verifCaps (md : GetMetadataResponse) : List String :=
-  md.Capabilities.filter (fun c => c == CapabilityRevocationCheckVerifier || c == CapabilityTrustedIdentityVerifier)
-
-/-- what the oracles answer, in the order `processSignature` asks them (`TraceOK` ties each field to its call) -/
-structure Trace where
-  name : String
-  minVer : String
-  got : Option VerifyPlugin × Option GoLite.Err
-  md : GetMetadataResponse × Option GoLite.Err
-  ld : List x509.Certificate × Option GoLite.Err
-  rA0 : ValidationResult
-  ierr : Option GoLite.Err
-  rE : ValidationResult
-  rT : ValidationResult
-  rR : ValidationResult
-  ex : VerifySignatureResponse × Option GoLite.Err
-
-/-- the verification capabilities `processSignature` keeps: those of the plugin's metadata when the signature names one -/
-def Trace.pcaps (t : Trace) (si : SignerInfo) : List String :=
-  if classifyPlugin si = .named then verifCaps t.md.1 else []
-
-/-- the authenticity result after the native identity check (which overwrites the error of the SAME result object) -/
-def Trace.rA (t : Trace) (si : SignerInfo) : ValidationResult :=
-  if !(t.pcaps si).contains CapabilityTrustedIdentityVerifier && t.ierr.isSome then { t.rA0 with Error := t.ierr } else t.rA0
-
-def revSkipped (enf : GoLite.Map String String) : Bool :=
-  GoLite.Map.get enf trustpolicy.TypeRevocation == trustpolicy.ActionSkip
-
-def Trace.toVerify (t : Trace) (si : SignerInfo) (enf : GoLite.Map String String) : List String :=
-  (t.pcaps si).filter (fun c => !(revSkipped enf && c == CapabilityRevocationCheckVerifier))
-
-/-- every field of the trace is what the corresponding oracle answers, asked with the arguments the Go code
-hands it at that point (the outcome as it stands then) -/
-structure TraceOK (env : Env) (v : Verifier) (a : Args) (o0 : Outcome) (ec : EnvelopeContent) (rI : ValidationResult)
-    (t : Trace) : Prop where
-  name : t.name = (getVerificationPlugin ec.SignerInfo).1
-  minVer : t.minVer = (getVerificationPluginMinVersion env.isValidSemver ec.SignerInfo).1
-  got : t.got = (GoLite.deref v.pluginManager).Get t.name
-  md : t.md = (GoLite.deref t.got.1).GetMetadata { PluginConfig := a.pc }
-  ld : t.ld = env.loadX509TrustStores ec.SignerInfo.SignedAttributes.SigningScheme a.pn a.tss v.trustStore
-  rA0 : t.rA0 = if t.ld.2.isSome then
-      { «Type» := trustpolicy.TypeAuthenticity, Action := GoLite.Map.get o0.VerificationLevel.Enforcement trustpolicy.TypeAuthenticity, Error := t.ld.2 }
-    else env.verifyAuthenticity t.ld.1 { EnvelopeContent := some ec, VerificationLevel := o0.VerificationLevel, VerificationResults := [rI] }
-  ierr : t.ierr = env.verifyX509TrustedIdentities a.pn a.tis ec.SignerInfo.CertificateChain
-  rE : t.rE = env.verifyExpiry { EnvelopeContent := some ec, VerificationLevel := o0.VerificationLevel, VerificationResults := [rI, t.rA ec.SignerInfo] }
-  rT : t.rT = env.verifyAuthenticTimestamp a.pn a.tss a.sv v.trustStore v.revocationTimestampingValidator
-      { EnvelopeContent := some ec, VerificationLevel := o0.VerificationLevel, VerificationResults := [rI, t.rA ec.SignerInfo, t.rE] }
-  rR : t.rR = v.verifyRevocation { EnvelopeContent := some ec, VerificationLevel := o0.VerificationLevel, VerificationResults := [rI, t.rA ec.SignerInfo, t.rE, t.rT] }
-  ex : t.ex = env.executePlugin t.got.1 (t.toVerify ec.SignerInfo o0.VerificationLevel.Enforcement) (some ec) a.tis a.pc
-
-/-- the scenario of the model (`Input`) that a call of `processSignature` amounts to -/
-def toInput (env : Env) (v : Verifier) (si : SignerInfo) (t : Trace) : Input :=
-  { level := "", override := [],
-    pluginAttr := classifyPlugin si,
-    minVerAttr := classifyMinVer env.isValidSemver si,
-    extAttrs := (getNonPluginExtendedCriticalAttributes si).map (fun x => { key := keyOf x, critical := x.Critical }),
-    pluginState := if v.pluginManager.isNone then .managerNil else if t.got.2.isSome then .notInstalled
-      else if t.md.2.isSome then .metadataError else .installed,
-    pluginVersion := if !env.isValidSemver t.md.1.Version then .invalidSemver
-      else if !env.isRequiredVerificationPluginVer t.md.1.Version t.minVer then .tooOld else .ok,
-    capIdentity := (verifCaps t.md.1).contains CapabilityTrustedIdentityVerifier,
-    capRevocation := (verifCaps t.md.1).contains CapabilityRevocationCheckVerifier,
-    trust := if t.ld.2.isSome then .storeError else if t.rA0.Error.isSome then .notFound else .found,
-    identityMatch := t.ierr.isNone,
-    wildcardIdentity := false,
-    expired := t.rE.Error.isSome,
-    timestampOk := t.rT.Error.isNone,
-    revocation := if t.rR.Error.isSome then .revoked else .ok,
-    pluginCallError := t.ex.2.isSome,
-    processed := t.ex.1.ProcessedAttributes.filterMap strOf,
-    verdictIdentity := verdictOf t.ex.1 CapabilityTrustedIdentityVerifier,
-    verdictRevocation := verdictOf t.ex.1 CapabilityRevocationCheckVerifier }
-
-/-- what the tie assumes of the oracles (each is a fact about a callee of `processSignature`, not about it) -/
-structure Contracts (env : Env) (v : Verifier) : Prop where
-  /-- every validation reports under its own type, with the action the outcome's level gives that type -/
-  auth : ∀ cs o, (env.verifyAuthenticity cs o).«Type» = trustpolicy.TypeAuthenticity ∧
-    (env.verifyAuthenticity cs o).Action = GoLite.Map.get o.VerificationLevel.Enforcement trustpolicy.TypeAuthenticity
-  expiry : ∀ o, (env.verifyExpiry o).«Type» = trustpolicy.TypeExpiry ∧
-    (env.verifyExpiry o).Action = GoLite.Map.get o.VerificationLevel.Enforcement trustpolicy.TypeExpiry
-  timestamp : ∀ p t s x y o, (env.verifyAuthenticTimestamp p t s x y o).«Type» = trustpolicy.TypeAuthenticTimestamp ∧
-    (env.verifyAuthenticTimestamp p t s x y o).Action = GoLite.Map.get o.VerificationLevel.Enforcement trustpolicy.TypeAuthenticTimestamp
-  revocation : ∀ o, (v.verifyRevocation o).«Type» = trustpolicy.TypeRevocation ∧
-    (v.verifyRevocation o).Action = GoLite.Map.get o.VerificationLevel.Enforcement trustpolicy.TypeRevocation
-  /-- a plugin manager that reports no error hands out a plugin -/
-  got : ∀ m n, v.pluginManager = some m → (m.Get n).2 = none → (m.Get n).1.isSome = true
-  /-- no minimum version demanded: every valid version will do (`semver.Compare(v, "v") = +1`) -/
-  noMin : ∀ ver, env.isValidSemver ver = true → env.isRequiredVerificationPluginVer ver "" = true
-
-
-/-- the plugin lists each verification capability at most once, trusted identity first (the shapes the
-model's two capability flags can express) -/
-def NormalCaps (l : List String) : Prop :=
-  l = (if l.contains CapabilityTrustedIdentityVerifier then [CapabilityTrustedIdentityVerifier] else []) ++
-      (if l.contains CapabilityRevocationCheckVerifier then [CapabilityRevocationCheckVerifier] else [])
-
-theorem resOf_auth (env : Env) (v : Verifier) (hc : Contracts env v) (cs : List x509.Certificate) (o : Outcome) :
-    resOf (env.verifyAuthenticity cs o) = ⟨Facts.typeAuthenticity, Enf.get o.VerificationLevel.Enforcement Facts.typeAuthenticity, (env.verifyAuthenticity cs o).Error.isSome⟩ := by
-  simp [resOf, (hc.auth cs o).1, (hc.auth cs o).2, typeAuth_eq, mapGet_eq_enfGet]
-theorem resOf_expiry (env : Env) (v : Verifier) (hc : Contracts env v) (o : Outcome) :
-    resOf (env.verifyExpiry o) = ⟨Facts.typeExpiry, Enf.get o.VerificationLevel.Enforcement Facts.typeExpiry, (env.verifyExpiry o).Error.isSome⟩ := by
-  have : trustpolicy.TypeExpiry = Facts.typeExpiry := by decide
-  simp [resOf, (hc.expiry o).1, (hc.expiry o).2, this, mapGet_eq_enfGet]
-theorem resOf_timestamp (env : Env) (v : Verifier) (hc : Contracts env v) (p : String) (t : List String) (s : trustpolicy.SignatureVerification) (x y : Nat) (o : Outcome) :
-    resOf (env.verifyAuthenticTimestamp p t s x y o) = ⟨Facts.typeAuthenticTimestamp, Enf.get o.VerificationLevel.Enforcement Facts.typeAuthenticTimestamp, (env.verifyAuthenticTimestamp p t s x y o).Error.isSome⟩ := by
-  have : trustpolicy.TypeAuthenticTimestamp = Facts.typeAuthenticTimestamp := by decide
-  simp [resOf, (hc.timestamp p t s x y o).1, (hc.timestamp p t s x y o).2, this, mapGet_eq_enfGet]
-theorem resOf_revocation (env : Env) (v : Verifier) (hc : Contracts env v) (o : Outcome) :
-    resOf (v.verifyRevocation o) = ⟨Facts.typeRevocation, Enf.get o.VerificationLevel.Enforcement Facts.typeRevocation, (v.verifyRevocation o).Error.isSome⟩ := by
-  simp [resOf, (hc.revocation o).1, (hc.revocation o).2, typeRev_eq, mapGet_eq_enfGet]
-
-theorem trimSpace_empty : GoLite.trimSpace "" = "" := by decide
-
-/-- what the tie compares: accepted or not, and the results recorded after the integrity result -/
-def view (r : Option GoLite.Err × Outcome) : Bool × List Result :=
-  (r.1.isNone, (r.2.VerificationResults.drop 1).map resOf)
-
-theorem capsOf_toInput (env : Env) (v : Verifier) (si : SignerInfo) (t : Trace)
-    (hcaps : NormalCaps (verifCaps t.md.1)) :
-    capsOf (toInput env v si t) = t.pcaps si := by
-  unfold capsOf Trace.pcaps toInput
-  simp only []
-  by_cases hn : classifyPlugin si = .named
-  · simp only [hn, beq_self_eq_true, if_true]
-    exact hcaps.symm
-  · have : (classifyPlugin si == PluginAttr.named) = false := by simpa using hn
-    simp [this, hn]
-
-theorem forIn_anyReturnC {α ρ : Type} (l : List α) (q : α → Bool) (v : ρ) :
-    forIn l ((none : Option ρ), ()) (fun a _ => if q a = true then (pure (ForInStep.done (some v, ())) : Id _) else pure (ForInStep.yield (none, ()))) =
-      pure (if l.any q = true then (some v, ()) else (none, ())) :=
-  GoLite.forIn_anyReturn l q v _ (fun _ _ => rfl)
-
-theorem ite_cases {α : Sort _} {c : Prop} [Decidable c] {a b r : α} (h1 : c → a = r) (h2 : ¬c → b = r) :
-    (if c then a else b) = r := by
-  by_cases h : c
-  · rw [if_pos h]; exact h1 h
-  · rw [if_neg h]; exact h2 h
-
-theorem trust_failed (a b : Bool) :
-    ((if a = true then Trust.storeError else if b = true then Trust.notFound else Trust.found) != Trust.found) = (a || b) := by
-  cases a <;> cases b <;> decide
-theorem trust_failed2 (b : Bool) :
-    ((if b = true then Trust.notFound else Trust.found) != Trust.found) = b := by
-  cases b <;> decide
-theorem revocation_failed (a : Bool) :
-    ((if a = true then Revocation.revoked else Revocation.ok) != Revocation.ok) = a := by
-  cases a <;> decide
-
-theorem trust_ne1 : (Trust.storeError != Trust.found) = true := by decide
-theorem trust_ne2 : (Trust.notFound != Trust.found) = true := by decide
-theorem trust_ne3 : (Trust.found != Trust.found) = false := by decide
-theorem rev_ne1 : (Revocation.revoked != Revocation.ok) = true := by decide
-theorem rev_ne2 : (Revocation.ok != Revocation.ok) = false := by decide
-
-theorem critFail_isSome (r : ValidationResult) (h : isCriticalFailure r = true) : r.Error.isSome = true := by
-  rw [isCriticalFailure_eq] at h
-  simp [isCritical, resOf] at h
-  exact h.2
-
-theorem contains_default (x : String) : GoLite.contains (default : List String) x = false := rfl
-theorem contains_nil (x : String) : GoLite.contains ([] : List String) x = false := rfl
-
-theorem deref_some {α : Type} [Inhabited α] (x : α) : GoLite.deref (some x) = x := rfl
-
-/-- the model's answer, as the tie compares it -/
-def modelView (i : Input) (enf : Enf) : Bool × List Result := ((process i enf).accepted, (process i enf).results)
-
-set_option hygiene false in
-macro "leaf_simp" : tactic => `(tactic| simp_all [-List.any_eq_true, -List.any_eq_false, List.any_map, hcomp, contains_default, contains_nil, typeRev_eq, htE, htT, haS, actEnforce_eq, GoLite.setAt, GoLite.len, failAuthenticity, trust_ne1, trust_ne2, trust_ne3, rev_ne1, rev_ne2, authStage, expiryStage, timestampStage, revocationStage, pluginStage, toVerify, revSkippedBy, St.push, St.obs,
-        toInput, view, GoLite.idPure, isCriticalFailure_eq, resOf, trust_failed, trust_failed2, revocation_failed, typeAuth_eq, mapGet_eq_enfGet, Trace.rA, Trace.pcaps, Trace.toVerify])
-
-set_option maxHeartbeats 4000000 in
-theorem source_processSignature_refines_model_partial (env : Env) (v : Verifier) (a : Args) (o0 : Outcome)
-    (ec : EnvelopeContent) (rI : ValidationResult) (t : Trace)
-    (hc : Contracts env v) (ht : TraceOK env v a o0 ec rI t)
-    (hI : env.verifyIntegrity a.sigBlob a.mt o0 = (some ec, rI)) (hIok : rI.Error = none) (hIty : isAuth rI = false)
-    (hres : o0.VerificationResults = [])
-    (hcaps : NormalCaps (verifCaps t.md.1))
-    (hnp : classifyPlugin ec.SignerInfo ≠ .named) :
-    view (processSignature env v a.sigBlob a.mt a.pn a.tis a.tss a.sv a.pc o0) =
-      modelView (toInput env v ec.SignerInfo t) o0.VerificationLevel.Enforcement := by
-  have hgp := source_getVerificationPlugin_refines_model ec.SignerInfo
-  have hgm := source_getVerificationPluginMinVersion_refines_model env.isValidSemver ec.SignerInfo
-  have hcapsOf := capsOf_toInput env v ec.SignerInfo t hcaps
-  obtain ⟨s0, hs0, hdisc⟩ := discover_spec (toInput env v ec.SignerInfo t)
-  unfold processSignature
-  simp only [Id.run]
-  simp only [GoLite.forIn_appendIf, GoLite.forIn_appendUnless, forIn_anyReturnC, pure_bind]
-  simp only [hI, hIok, hres, Option.isSome_none, Bool.false_eq_true, if_false, deref_some, List.nil_append]
-  simp only [← ht.name, ← ht.minVer, ← ht.got, ← ht.md, ← ht.ld, ← ht.ierr]
-  have hA1 := fun cs o => (hc.auth cs o).1
-  have hA2 := fun cs o => (hc.auth cs o).2
-  have hE1 := fun o => (hc.expiry o).1
-  have hE2 := fun o => (hc.expiry o).2
-  have hT1 := fun p t s x y o => (hc.timestamp p t s x y o).1
-  have hT2 := fun p t s x y o => (hc.timestamp p t s x y o).2
-  have hR1 := fun o => (hc.revocation o).1
-  have hR2 := fun o => (hc.revocation o).2
-  have hcomp : ((fun (x : ExtAttr) => x.critical) ∘ fun (x : Attribute) => ({ key := keyOf x, critical := x.Critical } : ExtAttr)) =
-      fun a => a.Critical := rfl
-  have haS : trustpolicy.ActionSkip = Facts.actionSkip := by decide
-  have htE : trustpolicy.TypeExpiry = Facts.typeExpiry := by decide
-  have htT : trustpolicy.TypeAuthenticTimestamp = Facts.typeAuthenticTimestamp := by decide
-  have hrA0 := ht.rA0
-  have hrE := ht.rE
-  have hrT := ht.rT
-  have hrR := ht.rR
-  have hex := ht.ex
-  have hne : (some errExtendedAttributeNotExist != some errExtendedAttributeNotExist) = false := by decide
-  have hee : (("" : String) != "") = false := by decide
-  -- plugin discovery
-  cases hpa : classifyPlugin ec.SignerInfo with
-  | absent =>
-    have h1 := hgp.1 hpa
-    have hn : t.name = "" := by rw [ht.name, h1]
-    have hd : discOK (toInput env v ec.SignerInfo t) = true := by simp [discOK, toInput, hpa]
-    have hp0 : t.pcaps ec.SignerInfo = [] := by simp [Trace.pcaps, hpa]
-    simp only [h1, hn, hne, hee, Option.isSome_some, Bool.and_false, Bool.false_eq_true, if_false]
-    simp only [apply_ite view]
-    repeat' (refine ite_cases (fun _ => ?_) (fun _ => ?_))
-    all_goals (
-      simp only [modelView, process, processE, hdisc, hd, if_true, bind, Except.bind]
-      clear hgp hgm hd hdisc ht hc
-      rename_i hlast
-      try (have hlf := critFail_isSome _ hlast)
-      try leaf_simp
-      try (by_cases hcr : ((getNonPluginExtendedCriticalAttributes ec.SignerInfo).any fun a => a.Critical) = true)
-      all_goals try leaf_simp)
-  | named => exact absurd hpa hnp
-  | notCritical | notString | blank =>
-    obtain ⟨h1, h2, h3⟩ := hgp.2.2 (by rw [hpa]; decide) (by rw [hpa]; decide)
-    have h3' : ((getVerificationPlugin ec.SignerInfo).2 != some errExtendedAttributeNotExist) = true := by
-      simpa [bne_iff_ne] using h3
-    have hd : discOK (toInput env v ec.SignerInfo t) = false := by simp [discOK, toInput, hpa]
-    simp only [h2, h3', Bool.and_self, if_true]
-    simp only [modelView, process, processE, hdisc, hd, Bool.false_eq_true, if_false, bind, Except.bind]
-    simp [view, GoLite.idPure, St.obs, hs0]
-    simpa using h2
-
-/-- the trace of a call: every oracle asked exactly as `processSignature` asks it -/
-def traceOf (env : Env) (v : Verifier) (a : Args) (o0 : Outcome) (ec : EnvelopeContent) (rI : ValidationResult) : Trace :=
-  let si := ec.SignerInfo
-  let mk (rs : List ValidationResult) : Outcome := { EnvelopeContent := some ec, VerificationLevel := o0.VerificationLevel, VerificationResults := rs }
-  let name := (getVerificationPlugin si).1
-  let got := (GoLite.deref v.pluginManager).Get name
-  let md := (GoLite.deref got.1).GetMetadata { PluginConfig := a.pc }
-  let ld := env.loadX509TrustStores si.SignedAttributes.SigningScheme a.pn a.tss v.trustStore
-  let rA0 : ValidationResult := if ld.2.isSome then
-      { «Type» := trustpolicy.TypeAuthenticity, Action := GoLite.Map.get o0.VerificationLevel.Enforcement trustpolicy.TypeAuthenticity, Error := ld.2 }
-    else env.verifyAuthenticity ld.1 (mk [rI])
-  let ierr := env.verifyX509TrustedIdentities a.pn a.tis si.CertificateChain
-  let t0 : Trace := ⟨name, (getVerificationPluginMinVersion env.isValidSemver si).1, got, md, ld, rA0, ierr, default, default, default, default⟩
-  let rA := t0.rA si
-  let rE := env.verifyExpiry (mk [rI, rA])
-  let rT := env.verifyAuthenticTimestamp a.pn a.tss a.sv v.trustStore v.revocationTimestampingValidator (mk [rI, rA, rE])
-  let rR := v.verifyRevocation (mk [rI, rA, rE, rT])
-  let ex := env.executePlugin got.1 (t0.toVerify si o0.VerificationLevel.Enforcement) (some ec) a.tis a.pc
-  { t0 with rE := rE, rT := rT, rR := rR, ex := ex }
-
-/-- the hypothesis `TraceOK` of the tie is satisfiable for every call (so the tie speaks about every call) -/
-theorem traceOf_ok (env : Env) (v : Verifier) (a : Args) (o0 : Outcome) (ec : EnvelopeContent) (rI : ValidationResult) :
-    TraceOK env v a o0 ec rI (traceOf env v a o0 ec rI) :=
-  ⟨rfl, rfl, rfl, rfl, rfl, rfl, rfl, rfl, rfl, rfl, rfl⟩
-
-/-- TIE (translated source, no plugin named), in closed form: for EVERY verifier, environment of callees, argument
-list and level, a call of the translated `processSignature` on a signature that passed integrity and names no
-(well-formed) verification plugin is accepted exactly when the model accepts the scenario the oracles' answers
-amount to, and records exactly the model's results after the integrity result -/
-theorem source_processSignature_refines_model_no_plugin (env : Env) (v : Verifier) (a : Args) (o0 : Outcome)
-    (ec : EnvelopeContent) (rI : ValidationResult)
-    (hc : Contracts env v)
-    (hI : env.verifyIntegrity a.sigBlob a.mt o0 = (some ec, rI)) (hIok : rI.Error = none) (hIty : isAuth rI = false)
-    (hres : o0.VerificationResults = [])
-    (hcaps : NormalCaps (verifCaps (traceOf env v a o0 ec rI).md.1))
-    (hnp : classifyPlugin ec.SignerInfo ≠ .named) :
-    view (processSignature env v a.sigBlob a.mt a.pn a.tis a.tss a.sv a.pc o0) =
-      modelView (toInput env v ec.SignerInfo (traceOf env v a o0 ec rI)) o0.VerificationLevel.Enforcement :=
-  source_processSignature_refines_model_partial env v a o0 ec rI _ hc (traceOf_ok env v a o0 ec rI) hI hIok hIty hres hcaps hnp
-
-/-- TIE (translated source): `processPluginResponse`, for EVERY list of verification capabilities, plugin response and
-outcome: it returns an error exactly when the model's `processResponse` stops, and leaves behind exactly the model's
-results (the trusted-identity verdict written into the authenticity result recorded earlier - through the pointer the
-Go code finds in the outcome -, the revocation verdict appended) -/
-theorem source_processPluginResponse_refines_model (i : Input) (resp : VerifySignatureResponse) (pre : List ValidationResult)
-    (caps : List String) (o : Outcome) (s : St)
-    (hrel : Rel pre o s) (hpre : pre.all (fun r => !isAuth r) = true)
-    (hvi : i.verdictIdentity = verdictOf resp CapabilityTrustedIdentityVerifier)
-    (hvr : i.verdictRevocation = verdictOf resp CapabilityRevocationCheckVerifier)
-    (hcaps : ∀ c ∈ caps, c = CapabilityTrustedIdentityVerifier ∨ c = CapabilityRevocationCheckVerifier)
-    (hauth : hasAuth s)
-    (hplug : (getVerificationPlugin (GoLite.deref o.EnvelopeContent).SignerInfo).2 = none)
-    (hext : i.extAttrs.any (fun a => !i.processed.contains a.key) =
-      (getNonPluginExtendedCriticalAttributes (GoLite.deref o.EnvelopeContent).SignerInfo).any
-        (fun a => !slices.ContainsAny resp.ProcessedAttributes a.Key)) :
-    match processResponse i o.VerificationLevel.Enforcement caps s with
-    | .ok s' => (processPluginResponse caps resp o).1 = none ∧ Rel pre (processPluginResponse caps resp o).2 s'
-    | .error s' => (processPluginResponse caps resp o).1.isSome = true ∧ Rel pre (processPluginResponse caps resp o).2 s' := by
-  rw [processPluginResponse_eq_spec]
-  exact respSpec_sim i resp pre caps o s hrel hpre hvi hvr hcaps hauth hplug hext
-
-/-! non-vacuity: the translated functions run on concrete oracles -/
-section Examples
-def ec0 : EnvelopeContent := { SignerInfo := { SignedAttributes := { ExtendedAttributes := [] } } }
-def env0 (expiryErr : Option GoLite.Err) : Env :=
-  { verifyIntegrity := fun _ _ _ => (some ec0, ⟨"integrity", "enforce", none⟩),
-    isValidSemver := fun _ => true,
-    isRequiredVerificationPluginVer := fun _ _ => true,
-    loadX509TrustStores := fun _ _ _ _ => ([], none),
-    verifyAuthenticity := fun _ o => ⟨trustpolicy.TypeAuthenticity, GoLite.Map.get o.VerificationLevel.Enforcement trustpolicy.TypeAuthenticity, none⟩,
-    verifyX509TrustedIdentities := fun _ _ _ => none,
-    verifyExpiry := fun o => ⟨trustpolicy.TypeExpiry, GoLite.Map.get o.VerificationLevel.Enforcement trustpolicy.TypeExpiry, expiryErr⟩,
-    verifyAuthenticTimestamp := fun _ _ _ _ _ o => ⟨trustpolicy.TypeAuthenticTimestamp, GoLite.Map.get o.VerificationLevel.Enforcement trustpolicy.TypeAuthenticTimestamp, none⟩,
-    executePlugin := fun _ _ _ _ _ => (default, none) }
-def v0 : Verifier :=
-  { pluginManager := none,
-    verifyRevocation := fun o => ⟨trustpolicy.TypeRevocation, GoLite.Map.get o.VerificationLevel.Enforcement trustpolicy.TypeRevocation, none⟩,
-    trustStore := 0, revocationTimestampingValidator := 0 }
-def out0 (expiryAction : String) : Outcome :=
-  { EnvelopeContent := none,
-    VerificationLevel := { Name := "custom", Enforcement := [("integrity", "enforce"), ("authenticity", "enforce"),
-      ("authenticTimestamp", "enforce"), ("expiry", expiryAction), ("revocation", "enforce")] },
-    VerificationResults := [] }
-
-/-- an expired signature under `expiry: log` is accepted, the failure recorded; under `expiry: enforce` it is rejected
-and the later validations are not reached -/
-example : view (processSignature (env0 (some ⟨"expired"⟩)) v0 ⟨0⟩ "" "p" [] [] default [] (out0 "log")) =
-    (true, [⟨"authenticity", "enforce", false⟩, ⟨"expiry", "log", true⟩, ⟨"authenticTimestamp", "enforce", false⟩,
-            ⟨"revocation", "enforce", false⟩]) := by decide
-example : view (processSignature (env0 (some ⟨"expired"⟩)) v0 ⟨0⟩ "" "p" [] [] default [] (out0 "enforce")) =
-    (false, [⟨"authenticity", "enforce", false⟩, ⟨"expiry", "enforce", true⟩]) := by decide
-end Examples
-
-end Process
-end NotationModel.C02.Tie
